@@ -29,6 +29,16 @@ inductive CRule
   | anyComplOther
 deriving DecidableEq, Repr
 
+/-- the three constructions of `~shape` that occur in shape.py -/
+inductive InvRule
+  /-- `self.__class__(~self.jordans[0])` -/
+  | simpleOfInvertedCurve
+  /-- `DisjointShape([~simple for simple in self.subshapes])` (De Morgan) -/
+  | disjointOfInvertedSubs
+  /-- `ShapeFromJordans(tuple(~jordan for jordan in self.jordans))`: every curve reversed, then regrouped by nesting -/
+  | regroupInvertedCurves
+deriving DecidableEq, Repr
+
 namespace Shape
 
 def ckind : Shape → Option CKind
@@ -48,6 +58,19 @@ def subs : Shape → List Shape
   | connected js => js.map simple
   | disjoint cs => cs.map ofComp
   | _ => []
+
+/-- `~shape` for the two constructions that need no regrouping (`none`: the regrouping of `ShapeFromJordans` is specified by its
+region in `Region`, not constructed here) -/
+def invertBy (rule : CKind → InvRule) : Shape → Option Shape
+  | empty => some whole
+  | whole => some empty
+  | simple j => match rule .simple with
+    | .simpleOfInvertedCurve => some (simple j.invert)
+    | _ => none
+  | connected js => match rule .connected with
+    | .disjointOfInvertedSubs => some (disjoint (js.map fun j => [j.invert]))
+    | _ => none
+  | disjoint _ => none
 
 end Shape
 
